@@ -3,6 +3,7 @@ CONSTANTS
   CombSet = {"WhenAll", "WhenAny", "Unwrap", "ContinueWith", "Map"}
   N = 4
   Fixed = TRUE
+  Follow = FALSE
 INVARIANT NoViolation
 INVARIANT Structural
 CHECK_DEADLOCK FALSE
